@@ -17,69 +17,88 @@ const pkgHS = "internal/handshake"
 func ruleBackoffLaw(c *Ctx, r *Report) {
 	const rule = "backoff-law"
 	sixty := int64(60e9)
-	check := func(fn *ssa.Function, disableAtom atomAssume, isIntervalStore func(st *ssa.Store) bool) {
+	// The law is decided on the value the interval location holds when the function returns,
+	// as a symbolic function of the value it held on entry (I): with backoff enabled it is 2*I,
+	// or 60 s when 2*I exceeds 60 s; with backoff disabled it is I. Helpers are followed, so it
+	// does not matter whether the doubling and the cap are written in place or in a function.
+	check := func(fn *ssa.Function, disableAtom atomAssume, isLoc func(addr ssa.Value) bool) {
 		if fn == nil {
 			return
 		}
 		r.Sites += len(fn.Blocks)
 		key := short(fn)
-		var dbl, capSt []*ssa.Store
-		for _, b := range fn.Blocks {
-			for _, in := range b.Instrs {
-				st, ok := in.(*ssa.Store)
-				if !ok || !isIntervalStore(st) {
-					continue
+		final := func(disabled bool, exceeds *bool) (map[string]bool, bool) {
+			out := map[string]bool{}
+			sawCmp := false
+			w := &Walk{Fn: fn, Follow: followSamePkg(fn), Init: &ivState{cur: "I", vals: map[ssa.Value]string{}}}
+			da := disableAtom
+			da.val = vBool(disabled)
+			w.Assume = func(v ssa.Value) (Val, bool) {
+				if da.match(v) {
+					return da.val, true
 				}
-				if bo, ok := st.Val.(*ssa.BinOp); ok && bo.Op == token.MUL {
-					if k, isC := constInt(bo.Y); isC && k == 2 {
-						dbl = append(dbl, st)
-						continue
+				if p, ok := v.(*ssa.Parameter); ok && p == fn.Params[0] && types.Identical(v.Type(), types.Typ[types.Bool]) {
+					return vBool(true), true // handleRetransmitTimeout(retransmit=true, ...)
+				}
+				if bo, ok := v.(*ssa.BinOp); ok && exceeds != nil {
+					if _, limit, when, ok := limitCmp(bo); ok && limit == sixty {
+						sawCmp = true
+						return vBool(when == *exceeds), true
 					}
 				}
-				if k, isC := constInt(st.Val); isC && k == sixty {
-					capSt = append(capSt, st)
-					continue
-				}
-				r.Bad(rule, key+":other-store", c.ipos(in), "the retransmission interval is modified by something other than doubling and the 60 s cap")
+				return unknown, false
 			}
-		}
-		if len(dbl) != 1 || len(capSt) != 1 {
-			r.Bad(rule, key, c.pos(fn.Pos()), fmt.Sprintf("expected one doubling and one 60 s cap of the interval, found %d and %d", len(dbl), len(capSt)))
-			return
-		}
-		on := disableAtom
-		on.val = vBool(false)
-		off := disableAtom
-		off.val = vBool(true)
-		wOn := (&Walk{Fn: fn, Assume: assumeAll(on, atomAssume{func(v ssa.Value) bool {
-			return v == ssa.Value(fn.Params[0]) && types.Identical(v.Type(), types.Typ[types.Bool])
-		}, vBool(true)})}).FromEntry()
-		wOff := (&Walk{Fn: fn, Assume: assumeAll(off, atomAssume{func(v ssa.Value) bool {
-			return v == ssa.Value(fn.Params[0]) && types.Identical(v.Type(), types.Typ[types.Bool])
-		}, vBool(true)})}).FromEntry()
-		r.Check(wOn.Reached[dbl[0]] && !wOff.Reached[dbl[0]], rule, key+":doubling", c.ipos(dbl[0]), "interval doubles exactly when backoff is not disabled", "the interval is doubled although backoff is disabled, or not doubled when it is enabled")
-		// cap: guarded by interval > 60s
-		var cmp *ssa.BinOp
-		for _, b := range fn.Blocks {
-			for _, in := range b.Instrs {
-				if bo, ok := in.(*ssa.BinOp); ok && bo.Op == token.GTR {
-					if k, isC := constInt(bo.Y); isC && k == sixty {
-						cmp = bo
+			w.Step = func(in ssa.Instruction, st PathState, raw map[*ssa.Phi]ssa.Value) bool {
+				st.(*ivState).step(in, raw, isLoc, sixty)
+				return true
+			}
+			w.OnCall = func(call *ssa.Call, callee *ssa.Function, st PathState) {
+				s := st.(*ivState)
+				for i, p := range callee.Params {
+					if i < len(call.Call.Args) {
+						s.vals[p] = s.sym(call.Call.Args[i], nil, sixty)
 					}
 				}
 			}
+			w.OnReturn = func(call *ssa.Call, ret *ssa.Return, st PathState, raw map[*ssa.Phi]ssa.Value) {
+				s := st.(*ivState)
+				if len(ret.Results) == 1 {
+					s.vals[call] = s.sym(ret.Results[0], raw, sixty)
+				}
+			}
+			w.FromEntry()
+			for _, ro := range w.Returns {
+				// error exits leave the schedule as it was; the law is about the exits that sent
+				if n := len(ro.Ret.Results); n > 0 && isErrorType(ro.Ret.Results[n-1].Type()) && !(ro.Vals[n-1].Kind == 2 && ro.Vals[n-1].B) {
+					continue
+				}
+				out[ro.St.(*ivState).cur] = true
+			}
+			return out, sawCmp
 		}
-		if cmp == nil {
-			r.Bad(rule, key+":cap", c.ipos(capSt[0]), "no comparison of the interval against 60 s")
-		} else {
-			wF := (&Walk{Fn: fn, Assume: assumeAll(atomAssume{mValue(cmp), vBool(false)})}).FromEntry()
-			r.Check(!wF.Reached[capSt[0]] && instrDominates(dbl[0], cmp) || (!wF.Reached[capSt[0]] && !dbl[0].Block().Dominates(cmp.Block()) && instrReaches(dbl[0], cmp)), rule, key+":cap", c.ipos(capSt[0]), "after doubling, an interval above 60 s is cut to 60 s", "the 60 s cap is not applied after the doubling")
+		show := func(m map[string]bool) string { return strings.Join(sortedBoolKeys(m), " | ") }
+		yes, no := true, false
+		offSet, _ := final(true, nil)
+		okOff := offSet["I"]
+		for k := range offSet {
+			if k != "I" && k != "60s" {
+				okOff = false
+			}
 		}
+		r.Check(okOff, rule, key+":disabled", c.pos(fn.Pos()), "with backoff disabled the interval is left as it is (at most cut to 60 s)", "with backoff disabled the interval becomes "+show(offSet)+" instead of staying unchanged")
+		lo, sawLo := final(false, &no)
+		hi, sawHi := final(false, &yes)
+		r.Check(sawLo && len(lo) == 1 && lo["2*I"], rule, key+":doubling", c.pos(fn.Pos()), "with backoff enabled and 2*I <= 60 s the interval becomes 2*I", "with backoff enabled (and the doubled value within 60 s) the interval becomes "+show(lo)+" instead of 2*I")
+		r.Check(sawHi && len(hi) == 1 && hi["60s"], rule, key+":cap", c.pos(fn.Pos()), "when 2*I exceeds 60 s the interval becomes 60 s", "when the doubled interval exceeds 60 s the interval becomes "+show(hi)+" instead of 60 s (or the doubled value is never compared with 60 s)")
 	}
 	fn := c.need(r, rule, pkgHS+".handleRetransmitTimeout")
-	check(fn, atomAssume{mLoad(tCfg, "DisableRetransmitBackoff"), unknown}, func(st *ssa.Store) bool {
-		p, ok := st.Addr.(*ssa.Parameter)
-		return ok && p.Name() == "retransmitInterval"
+	check(fn, atomAssume{mLoad(tCfg, "DisableRetransmitBackoff"), unknown}, func(addr ssa.Value) bool {
+		p, ok := addr.(*ssa.Parameter)
+		if !ok {
+			return false
+		}
+		_, isPtr := p.Type().Underlying().(*types.Pointer)
+		return isPtr && strings.Contains(typeShort(p.Type()), "Duration")
 	})
 	pf := c.need(r, rule, "(*"+pkgHS+".postHandshake).retransmitPostHandshakeFlight")
 	if pf != nil {
@@ -89,8 +108,8 @@ func ruleBackoffLaw(c *Ctx, r *Report) {
 				disable = p
 			}
 		}
-		check(pf, atomAssume{func(v ssa.Value) bool { return disable != nil && v == ssa.Value(disable) }, unknown}, func(st *ssa.Store) bool {
-			_, f, _, ok := fieldOfAddr(st.Addr)
+		check(pf, atomAssume{func(v ssa.Value) bool { return disable != nil && v == ssa.Value(disable) }, unknown}, func(addr ssa.Value) bool {
+			_, f, _, ok := fieldOfAddr(addr)
 			return ok && f == "RetransmitInterval"
 		})
 		// the next deadline uses the interval after the update
@@ -673,4 +692,76 @@ func ruleTrackedFragments(c *Ctx, r *Report) {
 		}
 	}
 	r.Floor(rule, n, 3)
+}
+
+
+// ivState tracks, along one path, the symbolic value of the retransmission interval location
+// ("I" = value on entry, "2*I", "60s", or a description of anything else).
+type ivState struct {
+	cur  string
+	vals map[ssa.Value]string
+}
+
+func (s *ivState) Fork() PathState {
+	n := &ivState{cur: s.cur, vals: map[ssa.Value]string{}}
+	for k, v := range s.vals {
+		n.vals[k] = v
+	}
+	return n
+}
+
+func (s *ivState) sym(v ssa.Value, raw map[*ssa.Phi]ssa.Value, sixty int64) string {
+	for i := 0; i < 8; i++ {
+		if x, ok := s.vals[v]; ok {
+			return x
+		}
+		switch t := v.(type) {
+		case *ssa.Phi:
+			if rv, ok := raw[t]; ok && rv != v {
+				v = rv
+				continue
+			}
+		case *ssa.Convert:
+			v = t.X
+			continue
+		case *ssa.ChangeType:
+			v = t.X
+			continue
+		case *ssa.Const:
+			if k, ok := constInt(t); ok {
+				if k == sixty {
+					return "60s"
+				}
+				return fmt.Sprintf("const %d", k)
+			}
+		case *ssa.BinOp:
+			x, y := s.sym(t.X, raw, sixty), s.sym(t.Y, raw, sixty)
+			switch {
+			case t.Op == token.MUL && y == "const 2":
+				return "2*" + x
+			case t.Op == token.MUL && x == "const 2":
+				return "2*" + y
+			case t.Op == token.ADD && x == y:
+				return "2*" + x
+			case t.Op == token.SHL && y == "const 1":
+				return "2*" + x
+			}
+			return "(" + x + t.Op.String() + y + ")"
+		}
+		break
+	}
+	return "?" + shapeOf(v, 0)
+}
+
+func (s *ivState) step(in ssa.Instruction, raw map[*ssa.Phi]ssa.Value, isLoc func(ssa.Value) bool, sixty int64) {
+	switch x := in.(type) {
+	case *ssa.UnOp:
+		if x.Op == token.MUL && isLoc(x.X) {
+			s.vals[x] = s.cur
+		}
+	case *ssa.Store:
+		if isLoc(x.Addr) {
+			s.cur = s.sym(x.Val, raw, sixty)
+		}
+	}
 }
